@@ -34,9 +34,16 @@ What is abstracted:
 * a file name is `Path.model key | Path.optim key | Path.tmp id`; the two format strings are
   functions `km ko : epoch → key` (identity for `…{epoch}…`, constant for a format without the
   field). Model and optimizer names never coincide, temp names never coincide with either.
-* a checkpoint's content is the number that identifies the state (`Content.model w`); training
-  is a deterministic function `train e (w, t)`, so "the parameters saved for epoch e" are
-  `U e` with `U 0 = (0, 0)`, `U (e+1) = train (e+1) (U e)`.
+* a checkpoint's content is the number that identifies the state (`Content.model w`); an optimizer
+  state dict is `Content.optim ⟨t, lr⟩`: `t` identifies its per-parameter state (momentum buffers,
+  step counts), `lr` the learning rate of its parameter groups — a hyper-parameter that
+  `update_for_epoch` itself REWRITES (reduce-on-plateau) before it saves anything. One epoch is
+  `Train.step`: the user's deterministic training `fit e (w, o)`, then the controller's write of the
+  reduced learning rate (`red e = some l`; `none`: the optimizer is left alone), then the save. So
+  "the parameters saved for epoch e" are `U e` with `U 0 = St.init`, `U (e+1) = step (e+1) (U e)`,
+  and the learning rate written at epoch `e` is part of `U e`.
+* which updates reduce the learning rate, and to what (`Train.red`), is a function of the metric
+  history and the `reduce_lr_*` parameters (C15's subject); here it is arbitrary.
 * a history row is identified by its epoch: its other columns are functions of the metric
   history (that is C15's subject); the validation metric that decides "best" is `vals[e-1]`
   (`none` = `inf`/`nan`, never best).
@@ -56,11 +63,25 @@ inductive Path where
   | tmp (id : Nat)
   deriving DecidableEq, Repr
 
+/-- What an optimizer state dict holds, as far as the model tells states apart: `t` identifies the
+per-parameter state (`state`: momentum buffers, step counts, …), `lr` the learning rate in
+`param_groups` (the hyper-parameter the controller itself rewrites). -/
+structure Opt where
+  t : Nat
+  lr : Nat
+  deriving DecidableEq, Repr
+
+/-- What a process holds in memory: the model's state and the optimizer's. -/
+abbrev St := Nat × Opt
+
+/-- What `load_model_and_optimizer_for_epoch(model, optimizer, 0)` initialises. -/
+def St.init : St := (0, ⟨0, 0⟩)
+
 inductive Content where
   | empty                -- a file that was created and never written
   | torn                 -- a partially written file
   | model (w : Nat)      -- a complete model state dict identifying state `w`
-  | optim (t : Nat)      -- a complete optimizer state dict identifying state `t`
+  | optim (o : Opt)      -- a complete optimizer state dict: per-parameter state `o.t`, learning rate `o.lr`
   deriving DecidableEq, Repr
 
 inductive Line where
@@ -204,10 +225,10 @@ def recorded (d : Disk) : Option Nat :=
   | none => none
 
 /-- `load_model_and_optimizer_for_epoch(model, optimizer, e)`: epoch 0 initialises. -/
-def loadState (P : Params) (d : Disk) (e : Nat) : Option (Nat × Nat) :=
-  if e = 0 then some (0, 0) else
+def loadState (P : Params) (d : Disk) (e : Nat) : Option St :=
+  if e = 0 then some St.init else
   match d.files.get (P.mpath e), d.files.get (P.opath e) with
-  | some (.model w), some (.optim t) => some (w, t)
+  | some (.model w), some (.optim o) => some (w, o)
   | _, _ => none
 
 /-! ## one update -/
@@ -216,7 +237,7 @@ def freshTmp (fs : Files) : Nat :=
   fs.foldl (fun m x => match x.1 with | .tmp i => max m (i + 1) | _ => m) 0
 
 /-- `save_model_and_optimizer_with_info`. -/
-def saveOps (P : Params) (d : Disk) (e : Nat) (s : Nat × Nat) : List FsOp :=
+def saveOps (P : Params) (d : Disk) (e : Nat) (s : St) : List FsOp :=
   let t1 := freshTmp d.files
   let t2 := t1 + 1
   [.mkdirs, .mktemp t1, .write t1 (.model s.1), .mkdirs, .mktemp t2, .write t2 (.optim s.2),
@@ -269,7 +290,7 @@ def cleanSet (P : Params) (vals : List (Option Int)) (k : Nat) (d : Disk) : List
 
 /-- The main sequence of calls: history row first or checkpoint first. -/
 def mainOps (Q : Quirks) (P : Params) (vals : List (Option Int)) (k : Nat) (d : Disk)
-    (s : Nat × Nat) : List FsOp :=
+    (s : St) : List FsOp :=
   if infoFirst Q P vals k d then histOps Q d (k + 1) ++ saveOps P d (k + 1) s
   else saveOps P d (k + 1) s ++ histOps Q d (k + 1)
 
@@ -277,7 +298,7 @@ def mainOps (Q : Quirks) (P : Params) (vals : List (Option Int)) (k : Nat) (d : 
 recorded in the controller's cache and `s` being the state to save: the main sequence and the
 clean-up set. -/
 def planUpdate (Q : Quirks) (P : Params) (vals : List (Option Int)) (k : Nat) (d : Disk)
-    (s : Nat × Nat) : Except Err (List FsOp × List Path) :=
+    (s : St) : Except Err (List FsOp × List Path) :=
   if refuses P vals k then .error .wouldOverwriteBest
   else .ok (mainOps Q P vals k d s, cleanSet P vals k d)
 
@@ -308,36 +329,69 @@ def tornDisk (tr : FsOp → Option FsOp) (d : Disk) (ops : List FsOp) (i : Nat) 
 
 /-! ## sessions: a new controller on the files, load the last epoch, train on -/
 
-/-- deterministic training: state after epoch `e` from the state after `e - 1`. -/
-abbrev Train := Nat → Nat × Nat → Nat × Nat
+/-- The deterministic part of a run. `fit e s`: the user's training of epoch `e` from the state `s`
+after epoch `e - 1` (any function: it may or may not touch the optimizer's learning rate).
+`red e = some l`: the plateau rule fires in `update_for_epoch(e)` and the controller writes the
+learning rate `l` into every parameter group of the optimizer; `none`: it leaves the optimizer alone. -/
+structure Train where
+  fit : Nat → St → St
+  red : Nat → Option Nat
 
-/-- The state an uninterrupted run has after epoch `e`. -/
-def U (tr : Train) : Nat → Nat × Nat
-  | 0 => (0, 0)
-  | e + 1 => tr (e + 1) (U tr e)
+/-- `for param_group in optimizer.param_groups: param_group["lr"] = new_lr`. -/
+def Opt.withLr (o : Opt) : Option Nat → Opt
+  | none => o
+  | some l => { o with lr := l }
+
+/-- The first thing `update_for_epoch(e)` does to what it was handed: the learning rate is written
+into the optimizer BEFORE anything is saved, so it is part of the checkpoint of epoch `e`. -/
+def applyLr (tr : Train) (e : Nat) (s : St) : St := (s.1, s.2.withLr (tr.red e))
+
+/-- One epoch: train, then the controller's write of the learning rate. The result is what
+`update_for_epoch(e)` saves AND what the process holds in memory afterwards. -/
+def Train.step (tr : Train) (e : Nat) (s : St) : St := applyLr tr e (tr.fit e s)
+
+/-- The state an uninterrupted run has after epoch `e` (after `update_for_epoch(e)` returned). -/
+def U (tr : Train) : Nat → St
+  | 0 => St.init
+  | e + 1 => tr.step (e + 1) (U tr e)
+
+/-- The learning rate the optimizer of an uninterrupted run has after epoch `e`. -/
+def lrAt (tr : Train) (e : Nat) : Nat := (U tr e).2.lr
 
 /-- New controller + `load_model_and_optimizer_for_epoch(model, optimizer)`. -/
-def startSession (P : Params) (d : Disk) : Option (Nat × (Nat × Nat)) :=
+def startSession (P : Params) (d : Disk) : Option (Nat × St) :=
   match recorded d with
   | none => none
   | some k => match loadState P d k with
     | none => none
     | some s => some (k, s)
 
-/-- A complete (crash-free) update of epoch `k+1` by a controller that has `k` epochs cached and
-holds state `s` of epoch `k`; clean-up in the planned order. -/
+/-- A complete (crash-free) epoch `k+1` of a process whose controller has `k` epochs cached and which
+holds state `s` of epoch `k`: training, the controller's write of the learning rate (`Train.step`),
+then the file operations of `update_for_epoch`, which save the state `s'` AFTER that write;
+clean-up in the planned order. -/
 def updateFull (Q : Quirks) (P : Params) (vals : List (Option Int)) (tr : Train) (k : Nat)
-    (s : Nat × Nat) (d : Disk) : Except Err (Disk × (Nat × Nat)) :=
-  let s' := tr (k + 1) s
+    (s : St) (d : Disk) : Except Err (Disk × St) :=
+  let s' := tr.step (k + 1) s
   match planUpdate Q P vals k d s' with
   | .error e => .error e
   | .ok (main, cl) => .ok (exec d (opsOf main cl), s')
 
+/-- NOT the code — the variant the property excludes: the learning rate is written into the optimizer
+only AFTER the checkpoint and the history row. It saves `tr.fit (k+1) s` (the optimizer as the
+training left it) and leaves `tr.step (k+1) s` in memory, so nothing is observable inside the
+process; `C16_lr_order_necessary` shows what a restart from that epoch finds. -/
+def updateLrLate (Q : Quirks) (P : Params) (vals : List (Option Int)) (tr : Train) (k : Nat)
+    (s : St) (d : Disk) : Except Err (Disk × St) :=
+  match planUpdate Q P vals k d (tr.fit (k + 1) s) with
+  | .error e => .error e
+  | .ok (main, cl) => .ok (exec d (opsOf main cl), tr.step (k + 1) s)
+
 /-- The same update killed after its first `i` mutating calls; `torn`: call `i` is a `torch.save`
 that got half-way. -/
 def updateCrashed (Q : Quirks) (P : Params) (vals : List (Option Int)) (tr : Train) (k : Nat)
-    (s : Nat × Nat) (d : Disk) (i : Nat) (torn : Bool) : Disk :=
-  match planUpdate Q P vals k d (tr (k + 1) s) with
+    (s : St) (d : Disk) (i : Nat) (torn : Bool) : Disk :=
+  match planUpdate Q P vals k d (tr.step (k + 1) s) with
   | .error _ => d
   | .ok (main, cl) =>
       if torn then tornDisk tearW d (opsOf main cl) i else exec d ((opsOf main cl).take i)
@@ -345,7 +399,7 @@ def updateCrashed (Q : Quirks) (P : Params) (vals : List (Option Int)) (tr : Tra
 /-- `fuel` further complete updates in the same process (stops at a refusal). Returns the
 number of epochs the controller has cached, the state it holds in memory, and the disk. -/
 def runLoop (Q : Quirks) (P : Params) (vals : List (Option Int)) (tr : Train) :
-    Nat → Nat → Nat × Nat → Disk → Nat × (Nat × Nat) × Disk
+    Nat → Nat → St → Disk → Nat × St × Disk
   | 0, k, s, d => (k, s, d)
   | fuel + 1, k, s, d =>
       match updateFull Q P vals tr k s d with
